@@ -5,7 +5,7 @@ import lib, storelib as S, arithlib as A
 from lib import Result, RMODES, OMODES, model_call, run_sharded
 
 RULE = ('(A) every pair of codes for operand words <=3 (quick) / <=4 (thorough), every signedness mix, n_frac -1..n_word+1, the three operators, evaluated as broadcast (n x 1) op (1 x m) arrays; '
-        '(B) the four extreme-code corners of random format pairs whose optimal result word is <=53 bits; (C) random codes, scalar and array operands, through the operator, fxpmath.add/sub/mul and np.add/subtract/multiply, with the integer-code method and (a quarter / a third of the cases) the value method op_method=repr; '
+        '(B) the four extreme-code corners of random format pairs whose optimal result word is <=53 bits; (C) random codes, scalar and array operands, through the operator, fxpmath.add/sub/mul and np.add/subtract/multiply, with the integer-code method and (a quarter / a third of the cases) the value method op_method=repr, either operand possibly carrying array_op_method=raw in its configuration; '
         '(D) random expression trees of depth <=4 (every node checked). Compared with the extracted Spec: exact dyadic result, documented growth rule, flags. '
         'Non-trivial = both operands non-zero; distinct by formats, codes, operator and route.')
 ASSUMPTIONS = ['operands are built from raw codes or (integer formats, half of the cases) from integer values; operands carry no scale/bias; default configuration except where stated']
@@ -127,7 +127,11 @@ def random_items(rng, n):
         if shx is not None and shy is not None and kx != ky and kx != 1 and ky != 1: continue
         if forced:
             items.append((op, fxm, cx, shx, fym, cy, shy, rng.choice(['operator', 'numpy']), {'op_method': 'repr', '_build': 'intval'})); continue
-        items.append((op, fxm, cx, shx, fym, cy, shy, rng.choice(['operator', 'func', 'numpy']), ({'op_method': 'repr'} if rng.random() < 0.3 else {}) | ({'_build': 'intval'} if rng.random() < 0.4 else {})))
+        cfg_ = ({'op_method': 'repr'} if rng.random() < 0.3 else {}) | ({'_build': 'intval'} if rng.random() < 0.4 else {})
+        # how an operand presents itself to NumPy (array_op_method) is a field of its own configuration: the operators compute on values in both settings
+        if rng.random() < 0.3: cfg_['array_op_method'] = 'raw'
+        if rng.random() < 0.3 and '_build' not in cfg_: cfg_['_ycfg'] = {'array_op_method': 'raw'}
+        items.append((op, fxm, cx, shx, fym, cy, shy, rng.choice(['operator', 'func', 'numpy']), cfg_))
     return items
 
 def tree_cases(rng, n, res):
